@@ -286,6 +286,26 @@ def eval_int(t):
             return a * b
         if op == "Div" and b != 0:
             return int(a / b)
+        if op == "Rem" and b != 0:
+            return a - b * int(a / b)
+        if op == "BitAnd":
+            return a & b
+        if op in ("Eq", "Ne", "Lt", "Le", "Gt", "Ge"):
+            return int({"Eq": a == b, "Ne": a != b, "Lt": a < b, "Le": a <= b, "Gt": a > b, "Ge": a >= b}[op])
+    return None
+
+
+def eval_atom_with(atom, term, value):
+    """truth of a normalised atom after replacing `term` by the integer `value`; None if it does not fold"""
+    sub = lambda t: map_term(t, lambda x: ("int", value) if x == term else None)
+    if atom[0] == "rel":
+        a, b = eval_int(sub(atom[2])), eval_int(sub(atom[3]))
+        if a is None or b is None:
+            return None
+        return {"Eq": a == b, "Ne": a != b, "Lt": a < b, "Le": a <= b}.get(atom[1])
+    if atom[0] == "bool":
+        v = eval_int(sub(atom[1]))
+        return None if v is None else (bool(v) == atom[2])
     return None
 
 
